@@ -848,3 +848,18 @@ def inline_package(trees: Dict[str, ast.Module], packages: Dict[str, bool], know
         if g:
             gone[mod] = g
     return log
+
+
+def inline_calls_into(fn: ast.AST, helpers: List[ast.AST], modname: str = "<local>") -> ast.AST:
+    """A copy of function `fn` with every call to one of `helpers` (module-level function definitions) inlined — lets a rule look at a
+    caller and a private callee as one body, whatever the callee's signature is."""
+    mod = ast.Module(body=[copy.deepcopy(h) for h in helpers] + [copy.deepcopy(fn)], type_ignores=[])
+    mi = ModuleInliner(mod, modname, {f"{modname}:{fn.name}"})
+    saved = set(PROTECTED)
+    mi.discover()
+    out = mi.run(discovered=True)
+    PROTECTED.clear()
+    PROTECTED.update(saved)
+    res = [s for s in out.body if isinstance(s, FuncNode) and s.name == fn.name]
+    ast.fix_missing_locations(res[0])
+    return res[0]
